@@ -21,8 +21,11 @@ class T:
     def cond_text(self, kind, truth):
         r = self.rng
         if kind == 'if':
-            k = r.randrange(5)
+            k = r.randrange(7)
             if k == 0: return '.if %d' % (r.choice([1, 2, 255]) if truth else 0)
+            # any non-zero value holds: negative values, all-ones, large values
+            if k == 5: return '.if %s' % (r.choice(['-1', '2 - 5', '~0', '0 - KT', '-KT', '0x7fffffffffffffff', '~0xff', '1 << 40']) if truth else r.choice(['0', '5 - 5', '~(-1)', 'KT - KT', '-0', '0 * -3']))
+            if k == 6: return '.if %s' % (r.choice(['low(256) + 1', 'KT * -1', '3 - 4', '!(1 - 1)']) if truth else r.choice(['low(256)', 'KF * -1', '4 - 4', '!(1 - 2)']))
             if k == 1: return '.if %s' % (r.choice(['2 > 1', '1 == 1', '3 != 2', '1 && 1', '!0']) if truth else r.choice(['1 > 2', '1 == 2', '2 != 2', '1 && 0', '!1']))
             if k == 2:
                 nm = r.choice(['KT', 'Kt', 'kt']) if truth else r.choice(['KF', 'kf'])
@@ -85,6 +88,11 @@ class T:
                 body += [(l, sel) for l in self.payload(sel, 1)]
             lines += body
         lines.append(('.endif', False))
+        # the grammar reads `#name` like `.name`: spell a construct with '#' now and then
+        mode = self.rng.random()
+        if mode < .25:
+            lines = [((('#' + l[1:]) if l.startswith('.') and l.split()[0][1:] in ('if', 'ifdef', 'ifndef', 'elif', 'else', 'endif') and
+                       (mode < .12 or self.rng.random() < .5) else l), k) for l, k in lines]
         return lines
 
 def programs(tier, seed):
